@@ -185,7 +185,7 @@ var specs = map[string]*Spec{
 		ID: "C13", Title: "AtomicCreate is all-or-nothing, durable-before-visible, interference-free",
 		Driver: "./drivers/machdrv", ModFile: "go.mod",
 		Rewrites: machRewrites(), Flavours: []string{"plain", "race"},
-		Quick:    TierParams{Runs: 1600, RaceRuns: 800, Budget: 5 * time.Minute},
+		Quick:    TierParams{Runs: 6400, RaceRuns: 1600, Budget: 5 * time.Minute},
 		Thorough: TierParams{Budget: 15 * time.Minute},
 		Level:    "fault_enumeration",
 		Rule: "every 8th plan is batch (4), the others go by plan index mod 4. (0,1) crash-point enumeration on DirFs over the simulated kernel: prior state = destination absent or old content (0..5000 bytes), optionally a leftover name.tmp of an interrupted earlier call (shorter, equal or longer than the new data; planted at the root and beside the destination), data of 0,1,100,4096 or 70000 bytes, write(2) limited to a few bytes per call in half of the plans; EVERY crash point (before each system call of the call) is executed in strict or ordered journal mode, crash survivors chosen per the durability model, remounted and read: the destination must be the previous state or exactly the data; then a fresh fault-free AtomicCreate over whatever was left behind must yield exactly its data. " +
